@@ -35,33 +35,93 @@ def _real_worker(case):
 
 
 def apply_edit(m, edit):
+    """edit = list of [op, name, payload]; all through the public Model API"""
     from fractions import Fraction
 
     from vlib import fexpr
 
-    vals = {k: fexpr.to_float(Fraction(v)) for k, v in edit["pars"]}
-    if edit["how"] == "update_parameter":
-        for k, v in vals.items():
-            m.update_parameter(k, v)
-    elif edit["how"] == "update_parameters":
-        m.update_parameters(vals)
-    elif edit["how"] == "scale_parameter":
-        old = m.get_parameter_values()
-        for k, v in vals.items():
-            m.scale_parameter(k, v / old[k])
-    else:
-        raise ValueError(edit)
+    for op, name, payload in edit:
+        if op == "update_parameter":
+            m.update_parameter(name, fexpr.to_float(Fraction(payload)))
+        elif op == "update_parameters":
+            m.update_parameters({name: fexpr.to_float(Fraction(payload))})
+        elif op == "scale_parameter":
+            old = m.get_parameter_values()[name]
+            m.scale_parameter(name, fexpr.to_float(Fraction(payload)) / old)
+        elif op == "update_variable":
+            m.update_variable(name, fexpr.to_float(Fraction(payload)))
+        elif op == "update_derived_fn":
+            m.update_derived(name, fn=C._fn(payload))
+        elif op == "update_reaction_fn":
+            m.update_reaction(name, fn=C._fn(payload))
+        elif op == "update_reaction_st":
+            m.update_reaction(name, stoichiometry={c: C._coef(cj) for c, cj in payload})
+        else:
+            raise ValueError(op)
 
 
 def edited_content(case):
     import copy
 
     c = copy.deepcopy(case["content"])
-    new = dict(case["edit"]["pars"])
-    for kv in c["pars"]:
-        if kv[0] in new:
-            kv[1] = {"v": new[kv[0]]}
+    for op, name, payload in case["edit"]:
+        if op in ("update_parameter", "update_parameters", "scale_parameter"):
+            for kv in c["pars"]:
+                if kv[0] == name:
+                    kv[1] = {"v": payload}
+        elif op == "update_variable":
+            for kv in c["vars"]:
+                if kv[0] == name:
+                    kv[1] = {"v": payload}
+        elif op == "update_derived_fn":
+            for kv in c["derived"]:
+                if kv[0] == name:
+                    kv[1] = dict(kv[1], e=payload["e"])
+        elif op == "update_reaction_fn":
+            for kv in c["rxns"]:
+                if kv[0] == name:
+                    kv[1] = dict(kv[1], e=payload["e"])
+        elif op == "update_reaction_st":
+            for kv in c["rxns"]:
+                if kv[0] == name:
+                    kv[1] = dict(kv[1], st=payload)
     return c
+
+
+def gen_edit(rng, content, n=(1, 3)):
+    """random edits that keep the dependency graph (only values, function bodies, numeric stoichiometry)"""
+    from vlib import fexpr
+
+    ops = []
+    plain_p = [k for k, v in content["pars"] if "v" in v]
+    plain_v = [k for k, v in content["vars"] if "v" in v]
+    for _ in range(rng.randint(*n)):
+        kinds = []
+        if plain_p:
+            kinds += ["update_parameter", "update_parameters", "scale_parameter"]
+        if plain_v:
+            kinds += ["update_variable"]
+        if content["derived"]:
+            kinds += ["update_derived_fn"] * 2
+        if content["rxns"]:
+            kinds += ["update_reaction_fn"] * 2 + ["update_reaction_st"]
+        if not kinds:
+            break
+        op = rng.choice(kinds)
+        if op in ("update_parameter", "update_parameters", "scale_parameter"):
+            ops.append([op, rng.choice(plain_p), str(rng.choice([1, 2, 4, 5]))])
+        elif op == "update_variable":
+            ops.append([op, rng.choice(plain_v), str(rng.choice([1, 2, 4, 5]))])
+        elif op == "update_derived_fn":
+            k, f = rng.choice(content["derived"])
+            ops.append([op, k, {"args": f["args"], "e": fexpr.gen_expr(rng, len(f["args"]), 1)}])
+        elif op == "update_reaction_fn":
+            k, f = rng.choice(content["rxns"])
+            ops.append([op, k, {"args": f["args"], "e": fexpr.gen_expr(rng, len(f["args"]), 1)}])
+        else:
+            k, f = rng.choice(content["rxns"])
+            ops.append([op, k, [[c, {"c": str(rng.choice([-3, -1, 1, 2, "1/2"]))}] for c, _ in f["st"]]])
+    return ops
 
 
 def _spec(case):
